@@ -1,6 +1,7 @@
 import MlodaVerif.Lemmas.SchedFail
 import MlodaVerif.Lemmas.PlanOK
 import MlodaVerif.Lemmas.PlanCore
+import MlodaVerif.Lemmas.PlanCoreRank
 /-! # C04 (scheduler half) - every accepted plan can run to completion
 
 `WellRanked p` is "each prerequisite a step waits for is produced by some step of the plan and the wait-for relation is
@@ -131,6 +132,52 @@ theorem C04.planCore_closed (anc : Nat → List Nat) (buckets : List (List Nat))
     (PlanCore.allOuts_planCore_perm anc buckets).mem_iff.mpr (hcl f hfin u hua)
   simp only [allOuts, List.mem_flatMap] at hu'
   exact hu'
+
+/-- PARTIAL (the full statement "every plan of the planner core is acyclic" is false: next theorem): when the buckets
+(feature-group class x similarity key) form a DAG - a rank `rb`, constant on each bucket, strictly decreasing along
+dependencies that leave the bucket - and the dependencies inside each bucket are acyclic, the wait-for relation of the
+plan is closed and acyclic.  Levels inside a bucket are handled by `_split_features_by_dependency_levels` (index of the
+level), dependencies between buckets by `rb`. -/
+theorem C04.planCore_wellRanked_partial (anc : Nat → List Nat) (buckets : List (List Nat)) (rb r : Nat → Nat)
+    (hnd : buckets.flatten.Nodup) (hne : ∀ b ∈ buckets, b ≠ [])
+    (hcl : ∀ f ∈ buckets.flatten, ∀ a ∈ anc f, a ∈ buckets.flatten)
+    (hsame : ∀ b ∈ buckets, ∀ f ∈ b, ∀ g ∈ b, rb f = rb g)
+    (hrb : ∀ b ∈ buckets, ∀ f ∈ b, ∀ a ∈ anc f, a ∉ b → rb a < rb f)
+    (hacyc : ∀ b ∈ buckets, ∀ u ∈ b, ∀ d ∈ anc u, d ∈ b → r d < r u) :
+    WellRanked (PlanCore.planCore anc buckets) :=
+  PlanCore.planCore_wellRanked anc buckets rb r hnd hne hcl hsame hrb hacyc
+
+/-- hence such requests can always run to completion: every maximal run of the planner core's plan has halted -/
+theorem C04.planCore_runs_to_completion (anc : Nat → List Nat) (buckets : List (List Nat)) (rb r : Nat → Nat)
+    (hnd : buckets.flatten.Nodup) (hne : ∀ b ∈ buckets, b ≠ []) (hne' : buckets ≠ [])
+    (hcl : ∀ f ∈ buckets.flatten, ∀ a ∈ anc f, a ∈ buckets.flatten)
+    (hsame : ∀ b ∈ buckets, ∀ f ∈ b, ∀ g ∈ b, rb f = rb g)
+    (hrb : ∀ b ∈ buckets, ∀ f ∈ b, ∀ a ∈ anc f, a ∉ b → rb a < rb f)
+    (hacyc : ∀ b ∈ buckets, ∀ u ∈ b, ∀ d ∈ anc u, d ∈ b → r d < r u)
+    (evs : List Ev) (hmax : ∀ e, ¬ Progress (PlanCore.planCore anc buckets) (run (PlanCore.planCore anc buckets) init evs) e) :
+    halted (run (PlanCore.planCore anc buckets) init evs) = true := by
+  have hp : PlanCore.planCore anc buckets ≠ [] := by
+    cases buckets with
+    | nil => exact absurd rfl hne'
+    | cons b rest =>
+      intro h
+      have hb : b ≠ [] := hne b (by simp)
+      have hlev := PlanCore.splitLevels_cover b anc
+      have : (OptGroup.splitLevels b anc) ≠ [] := by
+        intro hnil; rw [hnil] at hlev; simp at hlev; exact hb hlev
+      obtain ⟨L, hL⟩ := List.exists_mem_of_ne_nil _ this
+      have := PlanCore.planCore_mem_of (anc := anc) (buckets := b :: rest) (by simp) hL
+      rw [h] at this; cases this
+  exact C04.maximal_run_halts _ (C04.planCore_partition anc buckets hnd).1 (C04.planCore_nonempty anc buckets hne)
+    (C04.planCore_wellRanked_partial anc buckets rb r hnd hne hcl hsame hrb hacyc) hp evs hmax
+
+/-- non-vacuity of the hypotheses: a diamond over three groups with a two-level group.
+features 0 (root) | 1, 2 (group A: 2 depends on 1) | 3 (group B: depends on 1 and 2) -/
+example :
+    let anc : Nat → List Nat := fun f => if f = 1 then [0] else if f = 2 then [0, 1] else if f = 3 then [0, 1, 2] else []
+    (PlanCore.planCore anc [[0], [1, 2], [3]]).map (fun st => (st.outs, st.req)) =
+      [([0], []), ([1], [0]), ([2], [0, 1]), ([3], [0, 1, 2])] ∧ planOK (PlanCore.planCore anc [[0], [1, 2], [3]]) = true := by
+  decide
 
 /-- PARTIAL: the planner core does *not* always yield an acyclic wait-for relation - `C04.mutual_groups_witness` is a
 plan it builds (buckets [[0],[1,2],[4,3]] with anc 1 = [0], 2 = [4,0], 4 = [0], 3 = [1,0]) -/
